@@ -518,10 +518,17 @@ def count_checked(f, ctor, path, bound):
                 c = f.nodes.get(b.get("cond", -1))
                 if c is None:
                     continue
-                mm = re.match(r"^(\w+)>%s\(\)$" % bound, render(c).replace(" ", ""))
-                if not mm:
+                c0 = strip(c)
+                while c0["k"] == "BinaryOperator" and c0.get("op") in ("||", "&&"):
+                    c0 = strip(kids(c0)[1])      # the block that ends a short-circuit chain tests its last operand; its true edge implies it
+                if c0["k"] != "BinaryOperator" or c0.get("op") not in ("<", ">"):
                     continue
-                v = mm.group(1)
+                big, small = kids(c0) if c0["op"] == ">" else reversed(kids(c0))         # v > bound()  or  bound() < v, the bound possibly held in a local
+                if xrender(f, small).replace(" ", "").replace("this->", "") != bound + "()" or not re.fullmatch(r"\w+", render(big).replace(" ", "")):
+                    continue
+                v = render(big).replace(" ", "")
+                if c["i"] not in f.cfg.pos:
+                    c = c0                        # the chain as a whole is no CFG element; its last operand is
                 asg = [x for x in f.walk() if x["k"] == "BinaryOperator" and x.get("op") == "=" and
                        render(kids(x)[0]) == v and render(kids(x)[1]).replace(" ", "") == "(int)z[%s]" % slot
                        and f.cfg.dominates(x, c)]
